@@ -320,6 +320,14 @@ def run(chk):
                       'ops': [{'op': 'apply_batch', 'tasks': [{'idx': i} for i in range(k)], 'dur': {'kind': 'map', 'map': {}, 'default': 0.02}, 'get_timeout': 30,
                                'init': rng.random() < .5, 'init_dur': 0.02}, {'op': 'stop_and_join'}],
                       'rules': [{'role': 'main', 'op': 'start', 'obj': None, 'sleep': rng.choice([0.05, 0.2]), 'p': 1.0}]})
+    # a call with a progress bar and chunks of several tasks: a worker that dies between two tasks at the end of the call (its results are in,
+    # part of its progress is not) while the others already wait for the bar
+    for _ in range(1 if chk.tier == 'quick' else 5):
+        nj = rng.choice([2, 3])
+        c = rng.choice([2, 3, 5])
+        bases.append({'seed': rng.randint(0, 10 ** 6), 'pool': {'n_jobs': nj, 'start_method': 'fork'},
+                      'ops': [{'op': rng.choice(['map', 'map_unordered']), 'n': c * nj, 'chunk_size': c, 'progress_bar': True,
+                               'dur': {'kind': 'map', 'map': {str(c * (nj - 1)): 0.3}, 'default': 0.01}}]})
     # a worker_exit that takes a while on one worker: the crash points inside it and between its return and the delivery of its
     # result (the exit results of a call that then completes must be complete)
     for _ in range(1 if chk.tier == 'quick' else 6):
